@@ -591,6 +591,54 @@ func checkRecursionBreak(c *core.Ctx, r *core.Rule, prog *core.Prog) {
 	} else {
 		r.Fail("checkStructRecursions:required", c.Pos(chk.Pos()), "a required recursive field is not refused")
 	}
+	// members without a property spec are not skipped blindly: the arm taken for `field.Spec == nil` asks
+	// RecursiveTo before it moves on (a tuple element is always present; a tuple that contains itself is an
+	// infinitely sized Go type)
+	armChecks, armFound := false, false
+	for _, b := range chk.Blocks {
+		iff, ok := b.Instrs[len(b.Instrs)-1].(*ssa.If)
+		if !ok {
+			continue
+		}
+		bo, ok := iff.Cond.(*ssa.BinOp)
+		if !ok || bo.Op != token.EQL || !core.IsNilConst(bo.Y) {
+			continue
+		}
+		ld, ok := bo.X.(*ssa.UnOp)
+		if !ok {
+			continue
+		}
+		fa, ok := ld.X.(*ssa.FieldAddr)
+		if !ok || fieldName(fa.X.Type(), fa.Field) != "Spec" {
+			continue
+		}
+		armFound = true
+		// blocks reachable from the nil arm before the loop continues
+		seen := map[*ssa.BasicBlock]bool{}
+		stack := []*ssa.BasicBlock{b.Succs[0]}
+		for len(stack) > 0 {
+			x := stack[len(stack)-1]
+			stack = stack[:len(stack)-1]
+			if seen[x] || x.Dominates(b) {
+				continue
+			}
+			seen[x] = true
+			for _, in := range x.Instrs {
+				if call, ok := in.(ssa.CallInstruction); ok && strings.HasSuffix(core.CalleeName(call.Common()), "ir.Type).RecursiveTo") {
+					armChecks = true
+				}
+			}
+			stack = append(stack, x.Succs...)
+		}
+	}
+	switch {
+	case !armFound:
+		r.Pass("checkStructRecursions has no skip for members without a property spec")
+	case armChecks:
+		r.Pass("members without a property spec are checked for recursion before they are skipped")
+	default:
+		r.Fail("checkStructRecursions:spec-less-skipped", c.Pos(chk.Pos()), "members without a property spec (tuple elements) are skipped without a recursion check: `items: [string, $ref Self]` is emitted as a struct that contains itself by value and does not compile")
+	}
 }
 
 func checkDepthPairing(c *core.Ctx, r *core.Rule, prog *core.Prog) {
